@@ -8,3 +8,4 @@ pub mod nf;
 pub mod parse;
 pub mod print;
 pub mod rng;
+pub mod sentence;
